@@ -248,6 +248,10 @@ impl Engine for C19 {
         check_target("after reading through the cache")?;
         // post-link change of the target
         if c.post != Post::None && linked_ok {
+            // (from here on it is the harness that changes the user's file)
+            if !matches!(c.post, Post::WriteSameTmpElsewhere) {
+                model.live_targets.clear();
+            }
             match c.post {
                 Post::Modify => {
                     let mut b = data.to_vec();
